@@ -22,9 +22,10 @@ def handle (op : String) (j : Json) : Option (R Json) :=
         | some (Json.arr a) => do
             let p0 ← a[0]!.getArr?; let p1 ← a[1]!.getArr?
             pure (Rat.ceil (mkRat (← p0[0]!.getInt?) (← p0[1]!.getNat?)), Rat.ceil (mkRat (← p1[0]!.getInt?) (← p1[1]!.getNat?)))
-        | _ => pure (outShape Rat.ceil (fun k => (k : Rat)) sh[0]! s, outShape Rat.ceil (fun k => (k : Rat)) sh[1]! s)
-      let ys := (List.range S0.toNat).map fun (t : Nat) => ratJ (coord (fun k => (k : Rat)) 2 S0 sh[0]! s t)
-      let xs := (List.range S1.toNat).map fun (t : Nat) => ratJ (coord (fun k => (k : Rat)) 2 S1 sh[1]! s t)
+        | _ => pure (gridShape Rat.ceil (fun k => (k : Rat)) sh[0]! sh[1]! s)
+      -- the coordinates come from the regenerated grid (Gen.rescaleCoordY / rescaleCoordX through gridRow / gridCol)
+      let ys := (List.range S0.toNat).map fun (t : Nat) => ratJ (gridRow (fun k => (k : Rat)) 2 S0 S1 sh[0]! sh[1]! s t)
+      let xs := (List.range S1.toNat).map fun (t : Nat) => ratJ (gridCol (fun k => (k : Rat)) 2 S0 S1 sh[0]! sh[1]! s t)
       pure (okJ [("shape", ints #[S0, S1]), ("y", Json.arr ys.toArray), ("x", Json.arr xs.toArray),
                  ("exact_shape", ints #[outShape Rat.ceil (fun k => (k : Rat)) sh[0]! s, outShape Rat.ceil (fun k => (k : Rat)) sh[1]! s])])
   | "rs.plane" => some do
